@@ -6,7 +6,10 @@ import (
 	"fmt"
 	"math/big"
 	"math/rand/v2"
+	"runtime"
 	"strings"
+	"sync"
+	"sync/atomic"
 	"unicode/utf8"
 	"unsafe"
 
@@ -34,11 +37,11 @@ func init() {
 				Flavours: fl,
 				Blocks:   16,
 				Procs:    16,
-				Rule: "mbits: every length 0..16 x every alignment 0..7 x every zero/non-zero pattern (exhaustive), lengths 17..40 (64 thorough) x alignments x structured and random patterns; lengths 16..136 with pairs/triples of 64-bit words that cancel under +, xor and or/and-not (for implementations that combine words before testing), at both possible word phases; a few buffers of 4095..65536 bytes; each in two layouts: a window inside a guard-filled buffer, and a slice that ends exactly at the end of its allocation; LeadingZeroes/TrailingZeroes vs byte loops, Zero clears exactly the slice and returns its length, guard bytes intact; run plain, under -race (checkptr) and, in thorough, under -asan. " +
+				Rule: "mbits: every length 0..16 x every alignment 0..7 x every zero/non-zero pattern (exhaustive), lengths 17..40 (64 thorough) x alignments x structured and random patterns; lengths 16..136 with pairs/triples of 64-bit words that cancel under +, xor and or/and-not (for implementations that combine words before testing), at both possible word phases; a few buffers of 4095..65536 bytes; each in two layouts: a window inside a guard-filled buffer, and a slice that ends exactly at the end of its allocation; LeadingZeroes/TrailingZeroes vs byte loops, Zero clears exactly the slice and returns its length, guard bytes intact; run plain, under -race (checkptr) and, in thorough, under -asan; one goroutine works on a slice while another writes the 8 bytes on either side of it (lost neighbour updates checked, and any access outside the slice is a data race for the race detector). " +
 					"mstr.Trunc: every string of <= 5 runes over 1-, 2-, 3- and 4-byte runes x every n in 0..len+2 (prefix, len <= n, identity when n >= len, valid UTF-8, len >= n-4 when cut), random invalid byte strings for the unconditional clauses. " +
 					"mstr.CompareNatural: all 259 strings of length <= 3 over {0,1,9,/,:,a}: result in {-1,0,1}, antisymmetry on all pairs, transitivity on all 17.4 M triples (counted: those whose premises a<=b<=c hold), zero iff equal after stripping leading zeros of digit runs; every byte value and every rune U+0080..U+FFFF (stride beyond) placed after, before and between digit runs; numeric order of embedded digit runs of up to 18 digits, including pairs of runs that differ only in their low-order digits at every magnitude (around powers of ten and of two) with following text that would decide the other way. " +
 					"distinct = enumerated inputs; non-trivial = mbits length >= 8 (word loop engaged) / Trunc cuts inside a multi-byte rune / CompareNatural pair with a digit run on both sides",
-				Required:     []string{"mbits_cases", "mbits_unaligned_word_cases", "mbits_exact_end_cases", "mbits_cancelling_word_cases", "trunc_cases", "trunc_cuts_inside_rune", "natural_pairs", "natural_triples", "natural_numeric_pairs", "natural_prefix_pairs", "natural_close_value_pairs", "natural_rune_next_to_digits_pairs"},
+				Required:     []string{"mbits_cases", "mbits_unaligned_word_cases", "mbits_exact_end_cases", "mbits_cancelling_word_cases", "trunc_cases", "trunc_cuts_inside_rune", "natural_pairs", "natural_triples", "natural_numeric_pairs", "natural_prefix_pairs", "natural_close_value_pairs", "natural_rune_next_to_digits_pairs", "mbits_concurrent_neighbour_cases"},
 				Exhaustive:   true,
 				Assumptions:  []string{"an over-read that stays inside one allocation and does not change the result is invisible to this monitor", "digit runs are kept to <= 18 digits so that int does not overflow"},
 				CoverPkgs:    []string{"github.com/creachadair/mds/mbits", "github.com/creachadair/mds/mstr"},
@@ -457,7 +460,83 @@ func c20numeric(c *fw.Ctx, r *rand.Rand) {
 
 // ------------------------------------------------------------------ driver
 
+// c20neighbours: one goroutine works on a slice (Zero, LeadingZeroes,
+// TrailingZeroes) while another one writes the bytes right before and after
+// that slice - memory the functions must neither read nor write. A write that
+// puts back what it read is invisible to guard bytes, but it undoes the
+// neighbour's update (checked here) and is a data race (reported by the race
+// detector in the race flavour; the harness itself touches disjoint bytes only).
+func c20neighbours(c *fw.Ctx) {
+	words := make([]uint64, 16)
+	buf := unsafe.Slice((*byte)(unsafe.Pointer(&words[0])), 128)
+	var lost atomic.Int64
+	cases := 0
+	for off := 8; off < 24; off++ {
+		for _, n := range []int{1, 3, 5, 8, 9, 13, 16, 17, 23, 31} {
+			if (off+n+c.Block)%2 == 0 {
+				continue
+			}
+			cases++
+			w := buf[off : off+n : off+n]
+			var nb []int // neighbour offsets: up to 8 bytes on either side
+			for j := off - 8; j < off; j++ {
+				nb = append(nb, j)
+			}
+			for j := off + n; j < off+n+8; j++ {
+				nb = append(nb, j)
+			}
+			var wg sync.WaitGroup
+			stop := make(chan struct{})
+			wg.Add(2)
+			go func() {
+				defer wg.Done()
+				for i := 0; ; i++ {
+					select {
+					case <-stop:
+						return
+					default:
+					}
+					w[i%n] = 0xff
+					mbits.Zero(w)
+					mbits.LeadingZeroes(w)
+					w[n-1-i%n] = 1
+					mbits.TrailingZeroes(w)
+				}
+			}()
+			go func() {
+				defer wg.Done()
+				defer close(stop)
+				for i := 1; i <= 400; i++ {
+					v := byte(i%250 + 1)
+					for _, j := range nb {
+						buf[j] = v
+					}
+					runtime.Gosched()
+					for _, j := range nb {
+						if buf[j] != v {
+							lost.Add(1)
+						}
+					}
+				}
+			}()
+			wg.Wait()
+			if lost.Load() > 0 {
+				c.Fail(map[string]any{"slice": fmt.Sprintf("buf[%d:%d] of a 128-byte word-aligned buffer", off, off+n)}, "%d updates that another goroutine made to bytes just outside the slice were undone while Zero/LeadingZeroes/TrailingZeroes worked on the slice", lost.Load())
+				return
+			}
+			c.Step()
+		}
+	}
+	c.Add("mbits_concurrent_neighbour_cases", int64(cases))
+}
+
 func runC20(c *fw.Ctx) {
+	if (c.Flavour == "race" || c.Flavour == "plain") && c.Begin(1<<22+c.Block) {
+		ok, pv, stack := fw.Try(func() { c20neighbours(c) })
+		if !ok {
+			c.FailKind("panic", map[string]any{"phase": "concurrent neighbours"}, "panic: %v\n%s", pv, stack)
+		}
+	}
 	idx := 0
 	sanit := c.Flavour == "race" || c.Flavour == "asan"
 	// mbits exhaustive: lengths 0..16
